@@ -152,3 +152,48 @@ pub(crate) use reach;
 pub fn ueq(a: Unit, b: Unit) -> bool { a == b }
 #[cfg(not(any(feature = "dim_check_release", all(debug_assertions, feature = "dim_check_debug"))))]
 pub fn ueq(_a: Unit, _b: Unit) -> bool { true }
+
+// ------------------------------------------------------------------------------------------------
+// Recording stand-ins for Quantity * Quantity and Quantity / Quantity (used with #[kani::stub]): each call returns
+// an arbitrary value with the exact unit and records it in call order, so that a harness can state HOW the code
+// combines the terms it computed (which product/quotient ends up where, what is added to what) with the real Quantity
+// addition/subtraction, without re-deriving float products and quotients in the solver.  The formulas of the terms
+// themselves are Verus obligations.
+// ------------------------------------------------------------------------------------------------
+pub static mut REC_DIV: [f32; 4] = [0.0; 4];
+pub static mut REC_DIV_N: u8 = 0;
+pub static mut REC_MUL: [f32; 4] = [0.0; 4];
+pub static mut REC_MUL_N: u8 = 0;
+pub fn rec_reset() {
+    unsafe {
+        REC_DIV_N = 0;
+        REC_MUL_N = 0;
+    }
+}
+pub fn rec_q_div(a: Quantity, b: Quantity) -> Quantity {
+    let v: f32 = kani::any();
+    unsafe {
+        if REC_DIV_N < 4 {
+            REC_DIV[REC_DIV_N as usize] = v;
+        }
+        if REC_DIV_N < 200 {
+            REC_DIV_N += 1;
+        }
+    }
+    Quantity::new(v, a.unit / b.unit)
+}
+pub fn rec_q_mul(a: Quantity, b: Quantity) -> Quantity {
+    let v: f32 = kani::any();
+    unsafe {
+        if REC_MUL_N < 4 {
+            REC_MUL[REC_MUL_N as usize] = v;
+        }
+        if REC_MUL_N < 200 {
+            REC_MUL_N += 1;
+        }
+    }
+    Quantity::new(v, a.unit * b.unit)
+}
+pub fn rec_div(k: usize) -> f32 { unsafe { REC_DIV[k] } }
+pub fn rec_mul(k: usize) -> f32 { unsafe { REC_MUL[k] } }
+pub fn rec_counts() -> (u8, u8) { unsafe { (REC_DIV_N, REC_MUL_N) } }
